@@ -703,6 +703,15 @@ func invoke(obj any, ctx *hx.Ctx, p *Probe, sb *strings.Builder) error {
 		if err == nil {
 			attrs, _ := json.Marshal(sub.Attributes)
 			fmt.Fprintf(sb, "result: subject id=%s attrs=%s\n", sub.ID, attrs)
+
+			// the subject belongs to the request: later steps of its pipeline may write to it (templates can, with the
+			// functions that set map entries); what they write must not be seen by anybody else
+			if sub.Attributes == nil {
+				sub.Attributes = map[string]any{}
+			}
+
+			sub.Attributes["written-by-a-later-step-of-this-request"] = m.ID()
+			sub.ID += "+written-by-a-later-step-of-this-request"
 		}
 
 		return err
